@@ -28,6 +28,9 @@ def gen(rng, tier):
         # dryoc seals with the OS generator, libsodium opens it, and vice versa (classic + object API)
         if n < 64 or idx % 8 == 0:
             cs.append(Case("box_seal_rt %s %s %s" % (hx(I.rpk), hx(I.rsk), hx(I.msg)), cls="seal-roundtrip", expect="ok"))
+    # the key pairs the boxes are made with may come from a seed (classic, in-place and `KeyPair::from_seed`): same pair as libsodium's
+    for n in [32] * 12 + [0, 1, 16, 31, 33, 64, 100]:
+        cs.append(Case("box_seed_keypair %s" % hx(rbytes(rng, n)), cls="seeded-keypair", meta={"no_spec": n != 32}))
     # ciphertexts constructed so that the one-time authenticator lands on its carry / final-reduction corners
     for i in range(40 if tier == "quick" else 600):
         which = "secret" if i % 2 == 0 else "box"
